@@ -127,7 +127,9 @@ func formatSampleRatioOperand(sb *strings.Builder, expr ast.Expression) {
 				fmt.Fprintf(sb, "%g", v)
 			}
 		default:
-			fmt.Fprintf(sb, "%v", v)
+			// strings, arrays, tuples: format the expression, never the raw value (an array holds
+			// pointers, whose addresses differ from one parse to the next)
+			sb.WriteString(formatExprAsString(expr))
 		}
 	} else {
 		sb.WriteString(formatExprAsString(expr))
@@ -175,6 +177,10 @@ func scientificToFraction(source string) string {
 	// For negative exponents, convert to fraction
 	// 2e-2 = 2 * 10^-2 = 2 / 100
 	if exp < 0 {
+		// 10^19 does not fit an int64 (and the loop below would run |exp| times)
+		if exp < -18 {
+			return ""
+		}
 		denom := int64(1)
 		for i := 0; i < -exp; i++ {
 			denom *= 10
